@@ -3,6 +3,10 @@
 import json
 props=[json.loads(l) for l in open('/verif/properties.jsonl')]
 claimed={
+ "C14": dict(level="model_checking",
+   text="Bounded symbolic execution of the gob path: the repo's GobEncode/GobDecode wrappers (padding of security requirements, props/extensions envelopes, Ref via JSON) run from SSA on decoded symbolic documents, encoding/gob itself is a transmit-function model; JSON before/after is compared member-wise by the solver, so zero-valued validations and payload shapes are found as satisfying assignments. The two gob-inherent losses (zero behind pointer, empty arrays in payloads) are known findings with exact regions; everything else must hold.",
+   note="Trusted: SSA executor, z3, M-gob (contract model of encoding/gob; each reported witness is replayed through the real library), M-json. Bounds as C01 depth 1.",
+   design="4 C14", technique="bounded symbolic execution of go/ssa + gob transmit-function model + SMT (z3), counterexample replay through real encoding/gob"),
  "C15": dict(level="model_checking",
    text="One-step pointer agreement decided symbolically per kind: the real jsonpointer.GetForToken / JSONLookup code runs on a decoded symbolic document (all keyword combinations per path) for every keyword token and for symbolic extension / unknown-keyword names, and the result's encoding is compared by the solver with the corresponding member of the document's own JSON encoding. Multi-token pointers follow by induction over the pointer. Items extensions were repaired in /repo (ba07114); $schema is a known finding.",
    note="Trusted: SSA executor, z3, M-json, M-reflect. Bounds as C01 (depth 1, names of one symbolic byte).",
